@@ -116,9 +116,7 @@ def retype(v, kind):
         if kind == 'OrderedDict':
             return collections.OrderedDict(items)
         if kind == 'defaultdict':
-            d = collections.defaultdict(lambda: None)
-            d.update(items)
-            return d
+            return collections.defaultdict(None, items)      # no default factory: missing keys raise KeyError
         if kind == 'subclass':
             return MyDict(items)
         return dict(items)
